@@ -9,6 +9,14 @@ GeoLarge == {<<48, 40>>, <<151, 13>>, <<66, 35>>}
 GeoLargeQuick == {<<48, 40>>, <<151, 13>>}
 KindsLarge == {"gray", "rgb"}
 KindRgb == {"rgb"}
+\* every filter that takes DecodeParms x every predictor class, alone and in either position of a 2-filter chain
+PredChains == {<<pf>> : pf \in PredictorFilters} \cup {<<pf, x>> : pf \in PredictorFilters, x \in {"LZW", "A85", "Flate"}}
+              \cup {<<x, pf>> : x \in {"LZW", "A85", "Flate"}, pf \in PredictorFilters}
+              \cup {<<pf, pg>> : pf \in PredictorFilters, pg \in PredictorFilters}
+PredChainsQuick == {<<pf>> : pf \in PredictorFilters} \cup {<<pf, x>> : pf \in PredictorFilters, x \in {"LZW", "A85"}}
+                   \cup {<<x, pf>> : x \in {"LZW", "A85"}, pf \in PredictorFilters}
+GeoPred == {<<3, 2>>, <<5, 4>>}
+GeoPredQuick == {<<4, 3>>}
 KindsBmp == {"bw", "gray", "rgb"}
 KindsAll == {"bw", "gray", "rgb", "cmyk"}
 KindGray == {"gray"}
